@@ -75,7 +75,7 @@ class ReadvSpec(Spec):
         self.n_validate = 2 if tier == "quick" else 4      # each amaranth.sim replay costs seconds to set up
         self.n = cfg["buffers"]
         self.mon = Mon(self, self.n)
-        self.time_budget = 120 if tier == "quick" else 840
+        self.time_budget = 400 if tier == "quick" else 840
         self.max_states = 3_000_000
 
     def build(self):
